@@ -200,9 +200,66 @@ def low_zero_products(rng, n, maxval, count):
     return out
 
 
+def pending_carry_then_zero_limb(rng, n, count):
+    """(m, a, b) for which the CIOS accumulator leaves outer iteration 0 with the extra carry PENDING (total >= R = 2^(64 n)),
+    the next limb of b is ZERO, and the reduction of that iteration produces a top limb of exactly 2^64 - 1, so that adding the
+    pending carry overflows the top limb once more.  Needs m = R - eps close to R, the accumulator's low limb equal to m's low limb
+    (reduction factor 2^64 - 1) and a first reduction factor close to 2^64; a is solved for from the chosen accumulator:
+    X * 2^64 = a * b0 + m0 * m.  (Any implementation that special-cases zero limbs of b has to get exactly this state right.)"""
+    Wd = 1 << 64
+    R = 1 << (64 * n)
+    out = []
+    tries = 0
+    while len(out) < count and tries < count * 40:
+        tries += 1
+        eps = rng.choice([3, 977 + (1 << 32), 189, (1 << 31) + 1, rng.getrandbits(40) | 1, (1 << 62) + 1])
+        m = R - eps
+        k = rng.choice([1, 1, 2, 3, 7, rng.randrange(1, 1 << 16)])
+        m0 = Wd - 1 - k
+        b0 = rng.choice([Wd - 59, Wd - 1, Wd - 3, (rng.getrandbits(64) | 1) | (1 << 63)])
+        low = m % Wd
+        span = 1 << (64 * (n - 1))
+        # (R + low + W*Y) * W == m0 * m  (mod b0)
+        try:
+            winv = pow(Wd, -1, b0)
+        except ValueError:
+            continue
+        y0 = ((m0 * m * winv - R - low) * winv) % b0
+        if y0 >= span:
+            continue
+        z = rng.randrange(0, max((span - y0) // b0, 1))
+        y = y0 + b0 * z
+        x = R + low + Wd * y
+        num = x * Wd - m0 * m
+        if num <= 0 or num % b0:
+            continue
+        a = num // b0
+        if not (0 < a < m):
+            continue
+        # check with the textbook recurrence that the state is as intended
+        tot = a * b0
+        mm = ((tot % Wd) * ((-pow(m, -1, Wd)) % Wd)) % Wd
+        tot = (tot + mm * m) // Wd
+        if tot < R or (tot % Wd) != low:
+            continue
+        for b in (b0, b0 | ((rng.getrandbits(64) | 1) << (64 * (n - 1))) if n >= 3 else b0):
+            if b < m:
+                out.append((m, a, b))
+                out.append((m, b, a))          # commuted: the zero limbs are then in a, not in the scanned operand
+    return out
+
+
 def scenarios(tier, rng):
     quick = tier == "quick"
     kern, math = [], []
+    for n in (2, 3, 4, 6):
+        for m, a, b in pending_carry_then_zero_limb(rng, n, 6 if quick else 60):
+            inv = (-pow(m, -1, B)) % B
+            kern.append({"g": "kern", "op": "kredc", "a": slice_bytes(a, n), "b": slice_bytes(b, n), "m": slice_bytes(m, n),
+                         "inv": tobytes(inv), "w": W.redc_witness(a, b, m, n), "aim": "carry_then_zero_limb"})
+            if 64 * n in WIDTHS:
+                math.append({"g": "math", "op": "redc", "bits": 64 * n, "a": tobytes(a), "b": tobytes(b), "m": tobytes(m),
+                             "inv": tobytes(inv), "w": W.redc_witness(a, b, m, n), "aim": "carry_then_zero_limb"})
     for n in ([1, 2, 3, 4] if quick else [1, 2, 3, 4, 5, 8, 16]):
         maxval = (1 << (64 * n)) - 1
         for m, a, b in exact_multiple_cases(rng, maxval, 40 if quick else 400) + low_zero_products(rng, n, maxval, 20 if quick else 200):
